@@ -105,6 +105,14 @@ Theorem C17_wrapper_nullable_refuted :
 Proof. exact wrapper_nullable_refuted. Qed.
 Print Assumptions C17_wrapper_nullable_refuted.
 
+Theorem C17_wrapper_not_congruent_refuted :
+  exists e r name,
+    norm cfg0 e [] false (SSch TyAbsent false [] [wrapper WAllOf r TyAbsent false [] None None None o_none] [] [] None None None o_none) name
+      = TUnion name [TModel (sub_name name 0) [82]] None /\
+    norm cfg0 e [] false (SSch TyAbsent false [] [SRef r] [] [] None None None o_none) name = TModel name [82].
+Proof. exact wrapper_not_congruent_refuted. Qed.
+Print Assumptions C17_wrapper_not_congruent_refuted.
+
 (* exclusiveMinimum / exclusiveMaximum: the 3.0 boolean form == the 3.1 numeric form; running the validator twice changes nothing *)
 Theorem C17_excl_bool_numeric_equal : forall m, hx {| b_lim := Some m; b_excl := XBool true |} = hx {| b_lim := None; b_excl := XNum m |}.
 Proof. exact excl_bool_numeric_equal. Qed.
